@@ -207,7 +207,7 @@ func checkOutput(format string, out *gt.Node, ps, pls []pos) error {
 var recDoc = ev.New("TestPropDocumentOrder", "grammar-generated pipeline documents biased to mappings of 9-24 keys (keys from S incl. quoted numeric / boolean look-alikes, unquoted ints and bools, the empty key, keys needing quotes), partly supplied through << merges at a chosen position, YAML and JSON input; at every position the statement names (pipeline env block, plugins written as one mapping, mappings nested in unknown fields, in unknown steps and in wait/input/trigger contents) the key sequence read from the token stream of json.Marshal(p) and from the node tree of yaml.Marshal(p) must equal the reference resolver's; non-trivial = a checked mapping with > 8 keys not already in sorted order; distinct by hash of the YAML text")
 
 func TestPropDocumentOrder(t *testing.T) {
-	ev.Check(t, 2500, 25000, func(t *rapid.T) {
+	ev.Check(t, 1000, 12000, func(t *rapid.T) {
 		g := doc.NewG(t, doc.Config{Anchors: rapid.IntRange(0, 2).Draw(t, "anchors") > 0, Timestamps: true, BigNums: true, Floats: true,
 			BigMaps: true, BigMapOneIn: 3, EmptyKey: true, MergeKeyStr: true, UnknownSteps: true, BothCommands: true})
 		root := g.Pipeline()
